@@ -1,6 +1,10 @@
 import MosnVerif.Drive.Util
 import MosnVerif.Model.BoltV2
 import MosnVerif.Model.BoltRef
+import MosnVerif.Model.Dubbo
+import MosnVerif.Model.DubboThrift
+import MosnVerif.Model.Tars
+import MosnVerif.Model.EnvelopeRef
 /-!
 Driver of C01 (forwarding fidelity).  Case lines:
 
@@ -56,10 +60,125 @@ def boltCase (v2 : Bool) (idS opsS inS : String) (impl : List String) : String :
     | _, _ => "E E bad-impl"
   | _, _, _, _ => "E E bad-case"
 
+/-! ### the envelope codecs
+
+  `dubbo  <newId> <ops> <svcOK 0|1> <inputHex>`
+  `thrift <newId> <ops> <msgOK 0|1> <inputHex>`
+  `tars   <req|resp> <newId> <ops> <valid 0|1> <fields> <inputHex>`
+
+`fields` of a tars packet: `iVersion;cPacketType;iMessageType;iRequestId;iTimeout|iRet;servant|resultDesc;func;sBuffer;context;status`
+(byte strings in hex, maps as `k:v,k:v` in the order the sender wrote them). -/
+
+/-- header-map operations do not reach the wire format of these codecs; `mods` records what the reference has to judge.
+A `Del` only counts when the key exists; the metadata keys are not known to the model, so the harness only deletes keys it
+has seen (`D` = present). -/
+def modsOf (ops : List Op) : EnvelopeRef.Mods :=
+  ops.foldl (fun m o => match o with
+    | .set _ _ => { m with hdrOps := true }
+    | .del _ => { m with hdrOps := true }
+    | .body d => { m with body := some d }
+    | .cls _ => m) {}
+
+def bodyOf (ops : List Op) : Option Bytes := (modsOf ops).body
+
+def implOutcome (impl : List String) : Option (String × String × Bytes × Bool × Nat) :=
+  match impl with
+  | [dec, enc, outS] =>
+    match parseDec dec, unhex outS with
+    | some (accepted, n), some out => some (dec, enc, out, accepted, n)
+    | _, _ => none
+  | _ => none
+
+def verdict (agree spec : Bool) (mdec menc : String) (mout : Bytes) : String :=
+  s!"{if agree then "A" else "D"} {if spec then "S" else "V"} {mdec} {menc} {if agree then s!"len={mout.length}" else hex mout}"
+
+def dubboCase (idS opsS okS inS : String) (impl : List String) : String :=
+  match idS.toNat?, parseOps opsS, unhex inS, implOutcome impl with
+  | some id, some ops, some inp, some (dec, enc, out, accepted, n) =>
+    let svcOK := okS == "1"
+    let (mdec, menc, mout) : String × String × Bytes :=
+      match Dubbo.decode (fun _ => svcOK) inp with
+      | .needMore => ("more", "-", [])
+      | .error => ("err", "-", [])
+      | .panic => ("panic", "-", [])
+      | .frame f k =>
+        let f := match bodyOf ops with | some d => Dubbo.setData f d | none => f
+        (s!"frame:{k}", "ok", Dubbo.encode (Dubbo.setId f id))
+    let agree := mdec == dec && menc == enc && mout == out
+    let implOut : Option Bytes := if enc == "ok" then some out else none
+    let spec := enc != "panic" && EnvelopeRef.Dubbo.holds inp svcOK (modsOf ops) id accepted n implOut
+    verdict agree spec mdec menc mout
+  | _, _, _, _ => "E E bad-case"
+
+def thriftCase (idS opsS okS inS : String) (impl : List String) : String :=
+  match idS.toNat?, parseOps opsS, unhex inS, implOutcome impl with
+  | some id, some ops, some inp, some (dec, enc, out, accepted, n) =>
+    let msgOK := okS == "1"
+    let (mdec, menc, mout) : String × String × Bytes :=
+      match DubboThrift.decode (fun _ => msgOK) inp with
+      | .needMore => ("more", "-", [])
+      | .error => ("err", "-", [])
+      | .panic => ("panic", "-", [])
+      | .frame f k =>
+        let f := ops.foldl (fun f o => match o with
+          | .body d => DubboThrift.setData f d
+          | .set k v => if k == "service".toUTF8.toList then DubboThrift.setSvc f v else f
+          | .del k => if k == "service".toUTF8.toList then DubboThrift.setSvc f [] else f
+          | .cls _ => f) f
+        match DubboThrift.encode (DubboThrift.setId f id) with
+        | .ok o => (s!"frame:{k}", "ok", o)
+        | .panic => (s!"frame:{k}", "panic", [])
+    -- a frame cut inside its last 4 bytes: `Decode` compares with messageLen instead of messageLen+4 and the decoder's
+    -- out-of-range slice becomes an error; with the length test repaired it is `more`. C01 makes no demand on incomplete frames.
+    let incomplete := inp.length ≥ 4 && inp.length < 4 + getBE inp 0 4
+    let decAgree := mdec == dec || (incomplete && mdec == "err" && dec == "more")
+    let agree := decAgree && menc == enc && mout == out
+    let implOut : Option Bytes := if enc == "ok" then some out else none
+    let spec := (enc != "panic" || (EnvelopeRef.Thrift.parse inp).isNone) &&
+      EnvelopeRef.Thrift.holds inp msgOK (modsOf ops) id accepted n implOut
+    verdict agree spec mdec menc mout
+  | _, _, _, _ => "E E bad-case"
+
+def parseMap (s : String) : Option (List (Bytes × Bytes)) :=
+  if s == "-" then some [] else
+  (s.splitOn ",").mapM (fun kv => match kv.splitOn ":" with
+    | [k, v] => do some ((← unhex k), (← unhex v))
+    | _ => none)
+
+def tarsCase (kind idS opsS validS fieldsS inS : String) (impl : List String) : String :=
+  match idS.toNat?, parseOps opsS, unhex inS, implOutcome impl, fieldsS.splitOn ";" with
+  | some id, some ops, some inp, some (dec, enc, out, accepted, n), [iv, pt, mt, rid, x, s1, s2, sb, cx, st] =>
+    match parseInt? iv, parseInt? pt, parseInt? mt, parseInt? rid, parseInt? x, unhex s1, unhex s2, unhex sb, parseMap cx, parseMap st with
+    | some iv, some pt, some mt, some rid, some x, some s1, some s2, some sb, some cx, some st =>
+      let isReq := kind.startsWith "req"
+      let valid := validS == "1"
+      -- every order Go may iterate the two maps in
+      let outs : List Bytes :=
+        (perms cx).flatMap (fun c => (perms st).map (fun t =>
+          if isReq then
+            Tars.encodeReq { iVersion := iv, cPacketType := pt, iMessageType := mt, iRequestId := rid, sServantName := s1,
+                             sFuncName := s2, sBuffer := sb, iTimeout := x, context := c, status := t } id
+          else
+            Tars.encodeResp { iVersion := iv, cPacketType := pt, iRequestId := rid, iMessageType := mt, iRet := x,
+                              sBuffer := sb, status := t, sResultDesc := s1, context := c } id))
+      let (mdec, menc) : String × String :=
+        match Tars.frameLen? inp with
+        | none => ("more", "-")
+        | some k => if valid then (s!"frame:{k}", "ok") else ("err", "-")
+      let agree := mdec == dec && menc == enc && (menc != "ok" || outs.contains out)
+      let implOut : Option Bytes := if enc == "ok" then some out else none
+      let spec := enc != "panic" && EnvelopeRef.Tars.holds inp isReq valid (modsOf ops) id accepted n implOut
+      verdict agree spec mdec menc (outs.headD [])
+    | _, _, _, _, _, _, _, _, _, _ => "E E bad-fields"
+  | _, _, _, _, _ => "E E bad-case"
+
 def run (caseToks impl : List String) : String :=
   match caseToks with
   | ["bolt", id, ops, inp] => boltCase false id ops inp impl
   | ["boltv2", id, ops, inp] => boltCase true id ops inp impl
+  | ["dubbo", id, ops, ok, inp] => dubboCase id ops ok inp impl
+  | ["thrift", id, ops, ok, inp] => thriftCase id ops ok inp impl
+  | ["tars", kind, id, ops, valid, fields, inp] => tarsCase kind id ops valid fields inp impl
   | _ => "E E unknown-kind"
 
 end MosnVerif.Drive.C01
